@@ -553,7 +553,7 @@ def _pil_for(spec, n):
     return Image.merge({"L": "LA", "RGB": "RGBA"}[mode], bands), None
 
 
-def _build_nodes(psd, parent, nodes, spec, compression, c16_workaround):
+def _build_nodes(psd, parent, nodes, spec, compression, c16_workaround, api_default_groups=False):
     """children are appended to a group only after the group itself is attached to the document: the
     clipping_layer setter silently does nothing on a layer whose _psd is None."""
     from psd_tools.api.layers import Group, PixelLayer
@@ -588,15 +588,17 @@ def _build_nodes(psd, parent, nodes, spec, compression, c16_workaround):
             parent.append(layer)
         else:
             layer = Group.new(n.get("name", "G"))
-            if c16_workaround:
-                # Group.new leaves SectionDividerSetting.signature = None, so save() drops the group's blend
-                # mode (finding of C16; F-C13-1 here).  The main streams set the signature so that save+reopen
-                # keeps pass-through groups; one dedicated sub-check runs without this.
+            if c16_workaround and not api_default_groups:
+                # make sure the divider block has a signature, so that save() writes the blend mode
+                # (Group.new once left it None: F-C13-1 / C16, fixed by e50ee06)
                 layer._setting.signature = b"8BIM"
-            layer.blend_mode = _bm_enum(n["bm"])
+            if not (api_default_groups and n["bm"] == "pass_through"):
+                layer.blend_mode = _bm_enum(n["bm"])
+            # else: the group stays exactly what Group.new() made - a new group is pass-through by default and
+            # the blend-mode setter (which repairs a missing signature) is never called
             _apply_attrs(layer, n, compression, spec)
             parent.append(layer)
-            _build_nodes(psd, layer, n["children"], spec, compression, c16_workaround)
+            _build_nodes(psd, layer, n["children"], spec, compression, c16_workaround, api_default_groups)
         layer.visible = bool(n.get("vis", True))
         made.append((layer, n))
     for layer, n in made:
@@ -606,7 +608,7 @@ def _build_nodes(psd, parent, nodes, spec, compression, c16_workaround):
     return made
 
 
-def build_doc(spec, compression=None, c16_workaround=True):
+def build_doc(spec, compression=None, c16_workaround=True, api_default_groups=False):
     """Realise the spec with PSDImage.new / PixelLayer.frompil / Group.new / append and attribute setters."""
     from psd_tools import PSDImage
     from psd_tools.constants import Compression
@@ -614,7 +616,7 @@ def build_doc(spec, compression=None, c16_workaround=True):
     compression = Compression.RLE if compression is None else compression
     mode = spec["mode"] + ("A" if spec.get("docalpha") and spec["mode"] != "CMYK" else "")
     psd = PSDImage.new(mode, tuple(spec["size"]), depth=spec.get("depth", 8))
-    _build_nodes(psd, psd, spec["layers"], spec, compression, c16_workaround)
+    _build_nodes(psd, psd, spec["layers"], spec, compression, c16_workaround, api_default_groups)
     psd._compute_clipping_layers()
     return psd
 
